@@ -4,37 +4,50 @@ from hypothesis import strategies as st
 from .. import build, gen
 from ..core import Result, HarnessBug
 from ..vm import Prog, expect_ok, lit_repr
-from . import maps
+from . import maps, seqs
 
 ID = "C11"
 LEVEL = "exploration"
 BUDGET = {"quick": 2500, "thorough": 750000}
-RULE = ("case = an iterable expression: base (Array/List/Tuple of Int|String length 0..12, Range with 0-3 arguments incl. "
-        "omitted '_', either sign of step, zero step, empty/inverted intervals, spans not divisible by the step; Table/Tree "
-        "walked directly) wrapped in up to 3 views: Slice (1-4 arguments, '_', negative-from-end, beyond both ends, step "
-        "+-1..+-5), reverse, Zip of 1-4 iterables of unequal length, enumerate, Filter (all/none/even/odd/m3/pos), Map "
-        "(dbl/neg/id); each view built both with new(...) and with the stack-macro constructors. Oracle = Python evaluation "
-        "of the definitions (DESIGN.md D.6): forward walk == expected items then Terminal, backward walk == exact reverse, "
-        "len == count where Len exists, get(i) == i-th item where Get exists; walks are bounded (OVERRUN) and run under ASan. "
+RULE = ("case = an iterable expression: base (Array/List/Tuple of Int length 0..12 reached through one of 7 short mutation "
+        "histories, Range with 0-3 arguments incl. omitted '_', either sign of step, zero step, empty/inverted intervals, spans "
+        "not divisible by the step, values also shifted to 2^31 / 2^32 / 2^40 / 2^59 neighbourhoods; Table/Tree of Int keys "
+        "both as bases of views (expected order = the order a direct walk of that Table/Tree shows) and walked directly with "
+        "up to 70 keys after set/rem/clear-refill histories) wrapped in up to 3 views: Slice (1-4 arguments, '_', "
+        "negative-from-end, beyond both ends, step +-1..+-5), reverse, Zip of 1-4 iterables of unequal length, enumerate, "
+        "Filter (all/none/even/odd/m3/pos), Map (dbl/neg/id), a Range or Slice that was assigned from another one; each view "
+        "built both with new(...) and with the stack-macro constructors. A third family walks an Array/List/Tuple of "
+        "Int|String|Blob|Tri left behind by a whole C04 op sequence (lengths up to several hundred) and 0-2 views over it. "
+        "Oracle = Python evaluation of the definitions (DESIGN.md D.6): forward walk == expected items then Terminal, backward "
+        "walk == exact reverse, len == count where Len exists, get(i) == i-th item where Get exists; a walk abandoned after k "
+        "items (either direction) yields that prefix and the full walks that follow are unaffected; a top-level Map/Filter with "
+        "a recording function is only ever applied to items of its underlying iterable (and to each of them), and call(map) "
+        "applies it to exactly the underlying items in order; walks are bounded (OVERRUN) and run under ASan. "
         "Both tiers additionally enumerate a small scope exhaustively: every Slice over Array/List/Tuple of length 0..5 with "
         "start/stop in {_, -7..7} and step +-1..+-3, and every Range with start/stop in -5..5 and step -3..3. "
         "non-trivial = a view over a non-empty underlying whose selection is a proper non-empty subset, or a length not "
         "divisible by |step|, or an empty underlying, or nesting depth >= 2. distinct = distinct case JSON.")
 ASSUMPTIONS = ["negative-step Range/Slice meaning taken from the implementation's documented examples: window [start, stop) traversed from stop-1 downwards",
                "Tuples never hold one pointer twice (known finding tuple-repeated-pointer, reproduced once per run)",
-               "views over Table are not nested (iteration order is unspecified); Table/Tree are walked directly"]
+               "Table iteration order is unspecified: a view over a Table/Tree is compared with its definition applied to the order "
+               "that a direct forward walk of the same (unmodified) Table/Tree has just shown",
+               "call(map) 'performs the iteration' (Map documentation): the function is applied to each underlying item once, in order",
+               "assign(new(Range), r) and assign(new(Slice, x), s) give an iterable equal to the source (tests/test.c)"]
 
 FILTERS = ["all", "none", "even", "odd", "m3", "pos"]
 MAPS = ["dbl", "neg", "id"]
+RANGE_OFFS = [0, 0, 0, 2**31 - 4, 2**32 - 4, -2**31 - 4, 2**40, -2**59, 2**59]      # 8 * |value| stays below 2^63 (Map dbl, depth 3)
+BASES = ("arr", "lst", "tup", "range", "tab", "tre", "hist")
 
 
 def prepare(tier):
     return {"ex_vm": build.executor("asan", "ex_vm"), "fz_seq": build.executor("fuzz", "fz_seq", extra_ldflags=["-fsanitize=fuzzer"])}
 
 
-# coverage-guided companion (libFuzzer, ASan): Array<Int> and List<Int> in lock step against a plain C array, every
-# op followed by len / get (both index forms) / mem / forward and backward iteration and a generated Slice view
-# (harness/fz_seq.c)
+# coverage-guided companion (libFuzzer, ASan): Array<Int>, List<Int> and a heap Tuple of distinct heap Ints in lock step
+# against a plain C array (incl. plain sort and push_at with i == len under the admissible-set rule), every op followed
+# by len / get (both index forms) / mem / forward and backward iteration, a generated Slice view and, on request,
+# Zip(array, list) / Filter / Map views (harness/fz_seq.c)
 FUZZ = [{"target": "fz_seq", "runs": {"quick": 6000, "thorough": 2000000}, "max_len": 200}]
 
 
@@ -45,14 +58,23 @@ def _int_items():
 
 
 @st.composite
+def _range_base(draw):
+    nargs = draw(st.integers(0, 3))
+    a = draw(st.one_of(st.integers(-8, 8), st.just("_")))
+    b = draw(st.integers(-8, 12))
+    c = draw(st.one_of(st.integers(-4, 4), st.just("_"), st.sampled_from([1, -1, 2, 3])))
+    return {"k": "range", "nargs": nargs, "a": a, "b": b, "c": c, "alloc": draw(st.sampled_from(["heap", "stack"])),
+            "off": draw(st.sampled_from(RANGE_OFFS))}
+
+
+@st.composite
 def _base(draw):
-    k = draw(st.sampled_from(["arr", "lst", "tup", "range", "range", "arr"]))
+    k = draw(st.sampled_from(["arr", "lst", "tup", "range", "range", "arr", "arr", "lst", "range", "tab", "tre"]))
+    if k in ("tab", "tre"):
+        return {"k": k, "keys": draw(st.lists(st.integers(-30, 30), max_size=12, unique=True)),
+                "rem": draw(st.lists(st.integers(0, 11), max_size=3))}
     if k == "range":
-        nargs = draw(st.integers(0, 3))
-        a = draw(st.one_of(st.integers(-8, 8), st.just("_")))
-        b = draw(st.integers(-8, 12))
-        c = draw(st.one_of(st.integers(-4, 4), st.just("_"), st.sampled_from([1, -1, 2, 3])))
-        return {"k": "range", "nargs": nargs, "a": a, "b": b, "c": c, "alloc": draw(st.sampled_from(["heap", "stack"]))}
+        return draw(_range_base())
     return {"k": k, "items": draw(_int_items()),
             "via": draw(st.sampled_from(["direct", "direct", "popfront", "remfirst", "poptail", "pushfront", "growshrink", "popmid"]))}
 
@@ -65,10 +87,21 @@ def _slice_arg():
 def _expr(draw, depth):
     if depth == 0:
         return draw(_base())
-    k = draw(st.sampled_from(["slice", "slice", "slice", "reverse", "zip", "enum", "filter", "map", "base"]))
+    k = draw(st.sampled_from(["slice", "slice", "slice", "reverse", "zip", "enum", "filter", "map", "base", "asg"]))
     if k == "base":
         return draw(_base())
     alloc = draw(st.sampled_from(["heap", "stack"]))
+    if k == "asg":
+        # a Range / Slice that received its value through assign (destination constructed differently first)
+        if draw(st.booleans()):
+            src = draw(_range_base())
+        else:
+            n = draw(st.integers(0, 3))
+            args = [draw(_slice_arg()) for _ in range(n)]
+            if n == 3:
+                args[2] = draw(st.sampled_from([1, -1, 2, -2, 3, "_"]))
+            src = {"k": "slice", "of": draw(_expr(depth - 1)), "args": args, "alloc": alloc}
+        return {"k": "asg", "of": src}
     if k == "slice":
         n = draw(st.integers(0, 3))
         args = [draw(_slice_arg()) for _ in range(n)]
@@ -88,13 +121,55 @@ def _expr(draw, depth):
 
 
 @st.composite
+def _partial(draw):
+    """None, or an abandoned walk (direction, number of items taken) that precedes the full walks"""
+    if draw(st.integers(0, 2)) != 0:
+        return None
+    return [draw(st.sampled_from(["f", "b"])), draw(st.sampled_from([0, 1, 1, 2, 3, 5, 50]))]
+
+
+@st.composite
+def _hist_views(draw, ints):
+    out = []
+    for _ in range(draw(st.integers(0, 2))):
+        k = draw(st.sampled_from(["slice", "slice", "reverse", "enum", "zipr", "filter", "map"]))
+        alloc = draw(st.sampled_from(["heap", "stack"]))
+        if k in ("filter", "map") and not ints:
+            k = "reverse"
+        if k == "slice":
+            big = st.one_of(st.just("_"), st.integers(-15, 15), st.integers(-400, 400))
+            out.append(["slice", [draw(big), draw(big), draw(st.sampled_from([1, -1, 2, -2, 3, -3, 7, -7, 50, "_"]))], alloc])
+        elif k == "reverse":
+            out.append(["reverse", alloc])
+        elif k == "enum":
+            out.append(["enum"])
+        elif k == "zipr":
+            out.append(["zipr", draw(st.sampled_from([0, 1, 3, 10, 1000])), alloc])
+        elif k == "filter":
+            out.append(["filter", draw(st.sampled_from(["even", "odd", "m3", "pos", "none"])), alloc])
+        else:
+            out.append(["map", draw(st.sampled_from(MAPS)), alloc])
+    return out
+
+
+@st.composite
 def _case(draw):
-    which = draw(st.sampled_from(["view", "view", "view", "view", "map"]))
+    which = draw(st.sampled_from(["view", "view", "view", "view", "map", "hist", "hist"]))
     if which == "map":
         kind = draw(st.sampled_from(["Table", "Tree"]))
-        ks = draw(st.lists(st.integers(-30, 30), max_size=12, unique=True))
-        return {"fam": "map", "kind": kind, "keys": ks, "rem": draw(st.lists(st.integers(0, 11), max_size=4))}
-    return {"fam": "view", "e": draw(_expr(draw(st.integers(0, 3))))}
+        ks = draw(st.one_of(st.lists(st.integers(-30, 30), max_size=12, unique=True),
+                            st.lists(st.one_of(st.integers(-100, 100), st.sampled_from([2**31, 2**32, -2**31, 2**40, 997, 1994])), min_size=13, max_size=70, unique=True)))
+        return {"fam": "map", "kind": kind, "keys": ks, "rem": draw(st.lists(st.integers(0, 69), max_size=20)),
+                "hist": draw(st.sampled_from(["plain", "plain", "clear-refill", "set-twice"])), "partial": draw(_partial())}
+    if which == "hist":
+        seq = draw(seqs.seq_case(ext=True, max_ops=25))
+        return {"fam": "hist", "seq": seq, "views": draw(_hist_views(seq["et"] == "Int")), "partial": draw(_partial())}
+    e = draw(_expr(draw(st.integers(0, 3))))
+    rec = draw(st.sampled_from([None, None, None, "recdbl", "recid", "receven"]))
+    if rec is not None:
+        # a recording function at the top: which items does the view hand to it?
+        e = {"k": "filter" if rec == "receven" else "map", "of": e, "fn": rec, "alloc": draw(st.sampled_from(["heap", "stack"]))}
+    return {"fam": "view", "e": e, "partial": draw(_partial())}
 
 
 def strategy(tier):
@@ -137,19 +212,47 @@ class Unsupported(Exception):
     pass
 
 
-def evaluate(e):
+def range_args(e):
+    """(start, stop, step) of a range base; the offset shifts start and stop when both are given as numbers"""
+    n = e["nargs"]
+    off = e.get("off", 0) if (n >= 2 and e["a"] != "_") else 0
+    a = 0 if (n < 2 or e["a"] == "_") else e["a"] + off
+    b = 0 if n == 0 else e["b"] + off
+    c = 1 if (n < 3 or e["c"] == "_") else e["c"]
+    return a, b, c
+
+
+def live_keys(e):
+    keys = list(e["keys"])
+    for r in e["rem"]:
+        if r < len(keys):
+            keys[r] = None
+    return [k for k in keys if k is not None]
+
+
+def evaluate(e, env=None):
+    """env: id(base dict) -> observed key order of a Table/Tree base; 'hist' -> (items, ints) of the history base.
+    Without an observed order the keys are taken in sorted order (lengths and capabilities do not depend on it)."""
     k = e["k"]
     if k in ("arr", "lst", "tup"):
         return Node(["i%d" % v for v in e["items"]], True, True, list(e["items"]))
+    if k in ("tab", "tre"):
+        order = (env or {}).get(id(e))
+        if order is None:
+            order = sorted(live_keys(e))
+        # get(table, i) looks a key up, it is not positional: no Get in the sense of the property
+        return Node(["i%d" % v for v in order], True, False, list(order))
+    if k == "hist":
+        items, ints = env["hist"]
+        return Node(list(items), True, True, None if ints is None else list(ints))
     if k == "range":
-        n = e["nargs"]
-        a = 0 if (n < 2 or e["a"] == "_") else e["a"]
-        b = 0 if n == 0 else e["b"]
-        c = 1 if (n < 3 or e["c"] == "_") else e["c"]
+        a, b, c = range_args(e)
         vals = range_items(a, b, c)
         return Node(["i%d" % v for v in vals], True, True, vals)
+    if k == "asg":
+        return evaluate(e["of"], env)
     if k == "slice":
-        u = evaluate(e["of"])
+        u = evaluate(e["of"], env)
         if not u.has_len:
             raise Unsupported("slice needs len")
         n = len(u.items)
@@ -163,9 +266,9 @@ def evaluate(e):
             if len(args) == 3:
                 step = 1 if args[2] == "_" else args[2]
         idx = range_items(start, stop, step)
-        return Node([u.items[i] for i in idx], True, u.has_get, [u.ints[i] for i in idx])
+        return Node([u.items[i] for i in idx], True, u.has_get, None if u.ints is None else [u.ints[i] for i in idx])
     if k == "zip":
-        us = [evaluate(x) for x in e["of"]]
+        us = [evaluate(x, env) for x in e["of"]]
         for x, u in zip(e["of"], us):
             # Map/Zip/Slice advertise Len but delegate it to their input: over a Filter it raises ClassError,
             # so a Zip cannot learn that input's length; such compositions are skipped (counted as unsupported)
@@ -173,24 +276,29 @@ def evaluate(e):
                 raise Unsupported("zip input claims Len but cannot provide it")
         m = min(len(u.items) for u in us)
         items = ["U[%s]" % ",".join(u.items[i] for u in us) for i in range(m)]
-        return Node(items, all(u.has_len for u in us), all(u.has_get for u in us), [us[0].ints[i] for i in range(m)])
+        return Node(items, all(u.has_len for u in us), all(u.has_get for u in us),
+                    None if us[0].ints is None else [us[0].ints[i] for i in range(m)])
     if k == "enum":
-        u = evaluate(e["of"])
+        u = evaluate(e["of"], env)
         if not u.has_len:
             raise Unsupported("enumerate needs len")
         items = ["U[i%d,%s]" % (i, x) for i, x in enumerate(u.items)]
         return Node(items, True, u.has_get, list(range(len(u.items))))
     if k == "filter":
-        u = evaluate(e["of"])
+        u = evaluate(e["of"], env)
+        if u.ints is None:
+            raise Unsupported("filter over non-integer items")
         pred = {"all": lambda v: True, "none": lambda v: False, "even": lambda v: v % 2 == 0, "odd": lambda v: v % 2 != 0,
-                "m3": lambda v: _cmod(v, 3) == 0, "pos": lambda v: v > 0}[e["fn"]]
+                "m3": lambda v: _cmod(v, 3) == 0, "pos": lambda v: v > 0, "receven": lambda v: v % 2 == 0}[e["fn"]]
         keep = [i for i, v in enumerate(u.ints) if pred(v)]
         return Node([u.items[i] for i in keep], False, False, [u.ints[i] for i in keep])
     if k == "map":
-        u = evaluate(e["of"])
-        f = {"dbl": lambda v: 2 * v, "neg": lambda v: -v, "id": None}[e["fn"]]
+        u = evaluate(e["of"], env)
+        if u.ints is None and e["fn"] not in ("id",):
+            raise Unsupported("map over non-integer items")
+        f = {"dbl": lambda v: 2 * v, "neg": lambda v: -v, "id": None, "recdbl": lambda v: 2 * v, "recid": None}[e["fn"]]
         if f is None:
-            return Node(list(u.items), u.has_len, u.has_get, list(u.ints))
+            return Node(list(u.items), u.has_len, u.has_get, None if u.ints is None else list(u.ints))
         vals = [f(v) for v in u.ints]
         return Node(["i%d" % v for v in vals], u.has_len, u.has_get, vals)
     raise HarnessBug(k)
@@ -204,7 +312,7 @@ def _cmod(a, m):
 
 def depth_of(e):
     k = e["k"]
-    if k in ("arr", "lst", "tup", "range"):
+    if k in BASES:
         return 0
     if k == "zip":
         return 1 + max(depth_of(x) for x in e["of"])
@@ -223,6 +331,10 @@ def nontrivial(e):
         return len(evaluate(e).items) == 0
     if k in ("arr", "lst", "tup"):
         return len(e["items"]) == 0
+    if k in ("tab", "tre"):
+        return len(live_keys(e)) == 0
+    if k == "asg":
+        return nontrivial(e["of"])
     try:
         me = evaluate(e)
         subs = [evaluate(x) for x in (e["of"] if k == "zip" else [e["of"]])]
@@ -240,13 +352,16 @@ def nontrivial(e):
 # ---- program ----------------------------------------------------------------------------
 
 class Builder:
-    def __init__(self, P):
+    def __init__(self, P, limit=250, hist_slot=None):
         self.P = P
         self.next = 10
+        self.limit = limit
+        self.hist_slot = hist_slot     # slot of the container a C04 history left behind (base kind "hist")
+        self.mapbases = []             # (slot, base dict) of Table / Tree bases: their order has to be observed first
 
     def slot(self):
         self.next += 1
-        if self.next > 250:
+        if self.next > self.limit:
             raise Unsupported("too many objects")
         return self.next
 
@@ -254,8 +369,29 @@ class Builder:
         """emit construction ops; returns slot number"""
         P = self.P
         k = e["k"]
+        if k == "hist":
+            return self.hist_slot
         s = self.slot()
-        if k in ("arr", "lst", "tup"):
+        if k in ("tab", "tre"):
+            P.add("new %%%d heap t:%s t:Int t:Int" % (s, "Table" if k == "tab" else "Tree"))
+            keys = list(e["keys"])
+            for key in keys:
+                P.add("set %%%d i:%d i:%d" % (s, key, 2 * key))
+            for r in e["rem"]:
+                if r < len(keys) and keys[r] is not None:
+                    P.add("rem %%%d i:%d" % (s, keys[r]))
+                    keys[r] = None
+            self.mapbases.append((s, e))
+        elif k == "asg":
+            u = self.build(e["of"])
+            if e["of"]["k"] == "range":
+                P.add("new %%%d heap t:Range i:3 i:-7 i:2" % s)
+            else:
+                x = self.slot()
+                P.add("new %%%d heap t:Array t:Int i:1 i:2 i:3 i:4 i:5" % x)
+                P.add("new %%%d heap t:Slice %%%d i:1 i:4 i:2" % (s, x))
+            P.add("assign %%%d %%%d" % (s, u), lambda o: None if o.startswith("ok") else "assign failed: " + o)
+        elif k in ("arr", "lst", "tup"):
             # the same final contents reached through different mutation histories (unlink of head/tail/middle,
             # insertion at the front, growth and shrink of the backing store) - the cursors must not care
             via = e.get("via", "direct")
@@ -311,12 +447,13 @@ class Builder:
         elif k == "range":
             args = []
             n = e["nargs"]
+            a, b, c = range_args(e)
             if n == 1:
-                args = ["i:%d" % e["b"]]
+                args = ["i:%d" % b]
             elif n == 2:
-                args = ["_" if e["a"] == "_" else "i:%d" % e["a"], "i:%d" % e["b"]]
+                args = ["_" if e["a"] == "_" else "i:%d" % a, "i:%d" % b]
             elif n == 3:
-                args = ["_" if e["a"] == "_" else "i:%d" % e["a"], "i:%d" % e["b"], "_" if e["c"] == "_" else "i:%d" % e["c"]]
+                args = ["_" if e["a"] == "_" else "i:%d" % a, "i:%d" % b, "_" if e["c"] == "_" else "i:%d" % c]
             if e["alloc"] == "heap":
                 P.add("new %%%d heap t:Range %s" % (s, " ".join(args)))
             else:
@@ -355,30 +492,100 @@ class Builder:
         return s
 
 
-def add_walks(P, s, node):
-    exp = ",".join(node.items)
+def add_walks(P, s, node, node_fn=None, partial=None):
+    """node: the expected items (lengths and capabilities are final; the item order is final unless node_fn is given).
+    node_fn: called when the answers are checked - for views over a Table/Tree, whose order is only known by then.
+    partial: [direction, k] - a walk abandoned after k items comes first."""
     bound = 2 * len(node.items) + 4
-    P.add("fwd %%%d %d" % (s, bound), expect_ok("[%s]" % exp))
-    P.add("bwd %%%d %d" % (s, bound), expect_ok("[%s]" % ",".join(reversed(node.items))))
+    if node_fn is None:
+        def want(render, node=node):
+            return expect_ok(render(node))
+    else:
+        def want(render):
+            return lambda o: expect_ok(render(node_fn()))(o)
+    if partial is not None:
+        d, k = partial
+        if d == "f":
+            P.add("fwdk %%%d %d" % (s, k), want(lambda nd: "[%s]" % ",".join(nd.items[:k])))
+        else:
+            P.add("bwdk %%%d %d" % (s, k), want(lambda nd: "[%s]" % ",".join(list(reversed(nd.items))[:k])))
+    P.add("fwd %%%d %d" % (s, bound), want(lambda nd: "[%s]" % ",".join(nd.items)))
+    P.add("bwd %%%d %d" % (s, bound), want(lambda nd: "[%s]" % ",".join(reversed(nd.items))))
     if node.has_len:
         P.add("len %%%d" % s, expect_ok(str(len(node.items))))
         if node.has_get:
-            P.add("getsp %%%d" % s, expect_ok(exp))
-    P.add("fwd %%%d %d" % (s, bound), expect_ok("[%s]" % exp))      # a second walk must give the same
+            P.add("getsp %%%d" % s, want(lambda nd: ",".join(nd.items)))
+    P.add("fwd %%%d %d" % (s, bound), want(lambda nd: "[%s]" % ",".join(nd.items)))      # a second walk must give the same
 
 
-def view_prog(e):
+def observe_mapbases(P, b, env):
+    """a direct forward walk of every Table / Tree base: checks that it shows exactly the live keys and records their order"""
+    for (slot, base) in b.mapbases:
+        live = live_keys(base)
+
+        def chk(o, base=base, live=live):
+            if not (o.startswith("ok [") and o.endswith("]")):
+                return "walk failed " + o
+            got = o[4:-1].split(",") if o[4:-1] else []
+            if sorted(got) != sorted("i%d" % k for k in live):
+                return "direct walk yields %s, expected the keys %s in some order" % (got, live)
+            env[id(base)] = [int(x[1:]) for x in got]
+            return None
+        P.add("fwd %%%d %d" % (slot, 2 * len(live) + 4), chk)
+
+
+def add_recording(P, s, e, env, lazy):
+    """top-level Map / Filter with a recording function: the items the view hands to its function"""
+    if e["k"] not in ("map", "filter") or not e["fn"].startswith("rec"):
+        return
+    n0 = evaluate(e["of"], env)
+    if n0.ints is None:
+        return
+    bound = 2 * len(n0.items) + 4
+
+    def under():
+        return evaluate(e["of"], env).ints
+
+    def chk_walk(o):
+        if not (o.startswith("ok [") and o.endswith("]")):
+            return "reclog failed " + o
+        got = [int(x[1:]) for x in o[4:-1].split(",")] if o[4:-1] else []
+        u = under()
+        if not set(got) <= set(u):
+            return "the view applied its function to %s: not items of its underlying iterable %s" % (sorted(set(got) - set(u)), u)
+        if not set(u) <= set(got):
+            return "a full forward walk never applied the function to the underlying items %s" % sorted(set(u) - set(got))
+        return None
+
+    def chk_call(o):
+        want = "ok [%s]" % ",".join("i%d" % v for v in under())
+        return None if o == want else "call(map) applied the function to %s, expected exactly the underlying items %s" % (o, want)
+    P.add("reclog", lambda o: None)
+    P.add("fwd %%%d %d" % (s, bound), lambda o: None if o.startswith("ok") else "walk failed " + o)
+    P.add("reclog", chk_walk)
+    if e["k"] == "map":
+        P.add("mapcall %%%d" % s)
+        P.add("reclog", chk_call)
+
+
+def view_prog(e, partial=None):
     P = Prog()
     b = Builder(P)
     node = evaluate(e)
     s = b.build(e)
-    add_walks(P, s, node)
+    env = {}
+    if b.mapbases:
+        observe_mapbases(P, b, env)
+        add_walks(P, s, node, node_fn=lambda: evaluate(e, env), partial=partial)
+    else:
+        add_walks(P, s, node, partial=partial)
+    add_recording(P, s, e, env, bool(b.mapbases))
     return P
 
 
-def run_view(ctx, e):
+def run_view(ctx, e, partial=None):
     try:
-        P = view_prog(e)
+        P = view_prog(e, partial)
     except Unsupported:
         return None, False
     fail, obs = P.run(ctx.executor("ex_vm"))
@@ -391,6 +598,14 @@ def run_case(ctx, case):
         kind = case["kind"]
         P.add("new %%0 heap t:%s t:Int t:Int" % kind)
         keys = list(case["keys"])
+        hist = case.get("hist", "plain")
+        if hist == "clear-refill":
+            for k in keys:
+                P.add("set %%0 i:%d i:%d" % (k, k * 3))
+            P.add("resize %0 0")
+        elif hist == "set-twice":
+            for k in keys:
+                P.add("set %%0 i:%d i:%d" % (k, k * 3))
         for k in keys:
             P.add("set %%0 i:%d i:%d" % (k, k * 2))
         for r in case["rem"]:
@@ -414,17 +629,113 @@ def run_case(ctx, case):
                 return "backward walk failed " + o
             ks = o[4:-1].split(",") if o[4:-1] else []
             return None if ks == list(reversed(st_.get("fwd", []))) else "backward walk %s is not the reverse of forward %s" % (ks, st_.get("fwd"))
+        part = case.get("partial")
+        if part is not None:
+            # an abandoned walk first: at most k keys, all of them live and distinct
+            def chk_p(o, k=part[1]):
+                if not (o.startswith("ok [") and o.endswith("]")):
+                    return "abandoned walk failed " + o
+                ks = o[4:-1].split(",") if o[4:-1] else []
+                if len(ks) != min(k, len(live)) or len(set(ks)) != len(ks) or not set(ks) <= set("i%d" % x for x in live):
+                    return "abandoned walk of %d items over the keys %s yields %s" % (k, live, ks)
+                return None
+            P.add("%s %%0 %d" % ("fwdk" if part[0] == "f" else "bwdk", part[1]), chk_p)
         P.add("fwdkv %0", chk_f)
         P.add("bwd %0", chk_b)
         P.add("len %0", expect_ok(str(len(live))))
         fail, obs = P.run(ctx.executor("ex_vm"))
-        return Result(fail, len(live) == 0 or len(case["rem"]) > 0, ["base=" + kind], None)
+        ev = ["base=" + kind, "map-history=" + hist]
+        if len(live) > 12:
+            ev.append("map-keys>12")
+        if part is not None:
+            ev.append("abandoned-walk")
+        return Result(fail, len(live) == 0 or len(case["rem"]) > 0, ev, None)
+    if case["fam"] == "hist":
+        return run_hist(ctx, case)
     e = case["e"]
-    fail, ran = run_view(ctx, e)
+    part = case.get("partial")
+    fail, ran = run_view(ctx, e, part)
     if not ran:
         return Result(None, False, ["unsupported-composition"], None)
-    ev = ["top=" + e["k"], "depth=%d" % depth_of(e)]
+    ev = ["top=" + e["k"], "depth=%d" % depth_of(e)] + sorted(features(e))
+    if part is not None:
+        ev.append("abandoned-walk")
     return Result(fail, nontrivial(e), ev, None)
+
+
+def features(e, out=None):
+    """event labels for the input classes added later (Table/Tree bases, shifted Ranges, assigned views, recording)"""
+    out = set() if out is None else out
+    k = e["k"]
+    if k in ("tab", "tre"):
+        out.add("view-over-" + ("Table" if k == "tab" else "Tree"))
+    elif k == "range":
+        if range_args(e)[0] != (0 if (e["nargs"] < 2 or e["a"] == "_") else e["a"]):
+            out.add("range-shifted")
+    elif k == "asg":
+        out.add("assigned-" + e["of"]["k"])
+        features(e["of"], out)
+    elif k == "zip":
+        for x in e["of"]:
+            features(x, out)
+    elif k not in BASES:
+        if e.get("fn", "").startswith("rec"):
+            out.add("recording-" + k)
+        features(e["of"], out)
+    return out
+
+
+def hist_expr(views, big=False):
+    """big: some element is too large to be doubled / negated in int64 - Map then uses the identity"""
+    e = {"k": "hist"}
+    for v in views:
+        if v[0] == "slice":
+            e = {"k": "slice", "of": e, "args": list(v[1]), "alloc": v[2]}
+        elif v[0] == "reverse":
+            e = {"k": "slice", "of": e, "args": ["_", "_", -1], "alloc": v[1], "rev": True}
+        elif v[0] == "enum":
+            e = {"k": "enum", "of": e, "alloc": "stack"}
+        elif v[0] == "zipr":
+            e = {"k": "zip", "of": [e, {"k": "range", "nargs": 1, "a": "_", "b": v[1], "c": "_", "alloc": "heap"}], "alloc": v[2]}
+        elif v[0] == "filter":
+            e = {"k": "filter", "of": e, "fn": v[1], "alloc": v[2]}
+        elif v[0] == "map":
+            e = {"k": "map", "of": e, "fn": "id" if big else v[1], "alloc": v[2]}
+        else:
+            raise HarnessBug(v[0])
+    return e
+
+
+def run_hist(ctx, case):
+    """the container a whole C04 op sequence leaves behind (no model comparison on the way: that is C04's), walked
+    directly and through 0-2 views"""
+    seq = case["seq"]
+    P = Prog()
+    r = seqs.SeqRun(seq, slot=0, prog=P, check_every=False)
+    r.start()
+    for op in seq["ops"]:
+        r.apply(op)
+    items = [lit_repr(v) for v in r.model]
+    ints = [int(v[2:]) for v in r.model] if seq["et"] == "Int" else None
+    env = {"hist": (items, ints)}
+    ev = ["hist=%s<%s>" % (seq["kind"], seq["et"]), "hist-len=%s" % ("0" if not items else "1-12" if len(items) <= 12 else "13-99" if len(items) < 100 else ">=100")]
+    part = case.get("partial")
+    if part is not None:
+        ev.append("abandoned-walk")
+    base = {"k": "hist"}
+    add_walks(P, r.cur, evaluate(base, env), partial=part)
+    e = hist_expr(case["views"], big=ints is not None and any(abs(v) > 2**59 for v in ints))
+    if e["k"] != "hist":
+        try:
+            node = evaluate(e, env)
+            b = Builder(P, limit=95, hist_slot=r.cur)
+            s = b.build(e)
+            add_walks(P, s, node, partial=part)
+            ev.append("hist-top=" + e["k"])
+        except Unsupported:
+            ev.append("unsupported-composition")
+    fail, obs = P.run(ctx.executor("ex_vm"))
+    return Result(fail, len(items) > 0, ev, None)
 
 
 # ---- exhaustive small scope -------------------------------------------------------------
